@@ -69,6 +69,11 @@ func (m *Mutex) TryLock() bool {
 }
 
 func (m *Mutex) Unlock() {
+	if s := active.Load(); s != nil && s.UnlockYield && !s.dead {
+		if th := s.lookup(); th != nil {
+			s.park(th, op{kind: opYield, label: "unlock"})
+		}
+	}
 	releaseHB(&m.hb)
 	m.held = false
 	m.mu.Unlock()
